@@ -92,6 +92,12 @@ def level_of(n):
 LEVEL_PIPE0 = {L: sorted((n, 0) for n in NODES if level_of(n) == L) for L in range(5)}
 
 
+def descends(d, s):
+    """d lies strictly below s in the address tree (octal digits of s are the low digits of d)"""
+    k = 3 * level_of(s)
+    return d != s and (d & ((1 << k) - 1)) == s
+
+
 def cfg_ok(pfx, sfx):
     b = bytes.fromhex(sfx) if sfx != "-" else b""
     return len(b) == 6 and len(set(b)) == 6 and pfx not in b and 0 <= pfx < 256
@@ -212,7 +218,9 @@ class C04(PropCheck):
             return self._listen(obj)
         if op == "txaddr":
             pfx, sfx, am, node, to, st = int(a[0]), a[1], int(a[2]), int(a[3]), int(a[4]), int(a[5])
-            obj = o.with_cfg(pfx, sfx, am, node)
+            obj = o.with_cfg(pfx, sfx, am, node, fresh=len(a) > 6)
+            if len(a) > 6:       # the user re-assigned this node's multicast level first
+                obj.multicast_level = int(a[6])
             spi = obj._spi_shim
             spi.regs[0x10] = None
             hdr = o.structs.RF24NetworkHeader(to, 1)
@@ -331,6 +339,17 @@ class C04(PropCheck):
             c.append((f"txaddr {cf} {rng.randrange(2)} {s} {d} {rng.choice([0, 0, 1])}", "txaddr"))
         for s in (0, 0o1, 0o5, 0o15, 0o123, 0o4321, 0o5555):
             c += [(f"txaddr {dflt} 1 {s} {d} 0", "txaddr-exhaustive-sources") for d in NODES]
+        # routing is by tree position: a node whose multicast_level was re-assigned still picks the tree hop
+        mls = (-1, 0, 1, 2, 3, 4, 6)
+        for s in (0, 0o1, 0o5, 0o15, 0o123, 0o4321, 0o5555):
+            subtree = [d for d in NODES if d != s and (s == 0 or descends(d, s))]
+            for ml in mls:
+                ds = subtree if (thorough or len(subtree) < 40) else rng.sample(subtree, 40)
+                c += [(f"txaddr {dflt} 1 {s} {d} {rng.choice([0, 1])} {ml}", "txaddr-after-multicast_level") for d in ds]
+                c += [(f"txaddr {dflt} 1 {s} {rng.choice(NODES)} 0 {ml}", "txaddr-after-multicast_level")
+                      for _ in range(10)]
+        res.exhaustive_blocks.append("TX address of write()/_write() toward (a sample of, thorough: all) descendants "
+                                     f"after multicast_level = {list(mls)} on 7 sources of every depth")
         # levels
         c += [(f"lvl2addr {l}", "levels") for l in range(9)]
         for cf in [dflt] + cfgs:
